@@ -136,6 +136,9 @@ type executor struct {
 	safety   bool
 	ctrStack []string
 	paramVals []Value
+	loopFrames map[*loopInfo]*loopFrame
+	idxTerms []*Term
+	idxSeen  map[int]bool
 }
 
 type inlineCollector struct {
